@@ -239,9 +239,97 @@ Section Undo.
       + destruct (change_undo_ok _ _ _ Hv) as [b' [Hc [Hv' _]]]; try discriminate. rewrite Hc. apply Hstep. exact Hv'.
   Qed.
 
+  (* ---------- each Undo lands on a text of the script ---------- *)
+
+  Lemma texts_head undos : forall text, In text (texts undos text).
+  Proof.
+    induction undos as [|ch rest IH]; intros text; [left; reflexivity|].
+    destruct ch; cbn [texts]; try apply IH; left; reflexivity.
+  Qed.
+
+  Lemma texts_step ch rest (b b' : lb) :
+    valid (ch :: rest) (buf b) -> ch <> UBegin -> ch <> UEnd -> change_undo ch b = Ok b' ->
+    texts (ch :: rest) (buf b) = buf b :: texts rest (buf b').
+  Proof.
+    intros Hv Hb He Hc. destruct ch as [| |i s|i s|i o n]; try congruence; cbn [valid] in Hv;
+      destruct Hv as [l [r' [Ht [Hl Hv]]]]; subst i.
+    - destruct (change_undo_ok (UInsert (blen l) s) rest b) as [b2 [Hc2 [_ _]]]; try discriminate.
+      { cbn [valid]. eauto. }
+      assert (Hb2 : buf b' = l ++ r').
+      { unfold change_undo, delete_range in Hc. unfold bind at 1 in Hc.
+        rewrite set_pos_ok in Hc by (unfold lb_len; rewrite Ht, blen_app; lia).
+        assert (Hb' : buf (set_pos' b (blen l)) = l ++ s ++ r') by exact Ht.
+        unfold bind in Hc. rewrite (LineBufferTotal.drain_ok _ l s r' DForward Hb') in Hc. cbn [ret app] in Hc.
+        inversion Hc; subst. reflexivity. }
+      cbn [texts]. rewrite Ht at 2. rewrite bsplit_app, strip_prefix_app, Hb2. reflexivity.
+    - assert (Hb2 : buf b' = l ++ s ++ r').
+      { unfold change_undo in Hc. rewrite (LineBufferTotal.insert_str_ok b l r' s Ht) in Hc.
+        rewrite set_pos_ok in Hc by (unfold lb_len; cbn [set_buf buf]; rewrite !blen_app; lia).
+        inversion Hc; subst. reflexivity. }
+      cbn [texts]. rewrite Ht at 2. rewrite bsplit_app, Hb2. reflexivity.
+    - assert (Hb2 : buf b' = l ++ o ++ r').
+      { unfold change_undo, replace, replace_range, slice, str_drain, str_insert in Hc.
+        replace (Nat.ltb (blen l + blen n) (blen l)) with false in Hc by (symmetry; apply Nat.ltb_ge; lia).
+        rewrite Ht, bsplit_app in Hc. replace (blen l + blen n - blen l) with (blen n) in Hc by lia.
+        rewrite bsplit_app in Hc. rewrite bsplit_app in Hc. inversion Hc; subst. reflexivity. }
+      cbn [texts]. rewrite Ht at 2. rewrite bsplit_app, strip_prefix_app, Hb2. reflexivity.
+  Qed.
+
+  Theorem undo_lands_on_script undos : forall b n count waiting undone u' b' d,
+    valid undos (buf b) -> cs_undo_loop undos b n count waiting undone = Ok (u', b', d) ->
+    In (buf b') (texts undos (buf b)).
+  Proof.
+    induction undos as [|ch rest IH]; intros b n count waiting undone u' b' d Hv H.
+    - cbn in H. inversion H; subst. left. reflexivity.
+    - assert (Hstep : forall b1 w' d', valid rest (buf b1) ->
+                (if (w' <=? 0)%Z then
+                   if Nat.leb n (S count) then Ok (rest, b1, d')
+                   else cs_undo_loop rest b1 n (S count) w' d'
+                 else cs_undo_loop rest b1 n count w' d') = Ok (u', b', d) ->
+                In (buf b') (texts rest (buf b1))).
+      { intros b1 w' d' Hv1 H1. destruct (w' <=? 0)%Z; [destruct (Nat.leb n (S count))|].
+        - inversion H1; subst. apply texts_head.
+        - eapply IH; eauto.
+        - eapply IH; eauto. }
+      destruct ch as [| |i s|i s|i o n0]; cbn [cs_undo_loop] in H.
+      + cbn [texts]. eapply Hstep; [exact Hv|exact H].
+      + cbn [texts]. eapply Hstep; [exact Hv|exact H].
+      + destruct (change_undo_ok _ _ _ Hv) as [b1 [Hc [Hv1 _]]]; try discriminate. rewrite Hc in H.
+        rewrite (texts_step _ _ _ _ Hv) by (try discriminate; exact Hc). right. eapply Hstep; eauto.
+      + destruct (change_undo_ok _ _ _ Hv) as [b1 [Hc [Hv1 _]]]; try discriminate. rewrite Hc in H.
+        rewrite (texts_step _ _ _ _ Hv) by (try discriminate; exact Hc). right. eapply Hstep; eauto.
+      + destruct (change_undo_ok _ _ _ Hv) as [b1 [Hc [Hv1 _]]]; try discriminate. rewrite Hc in H.
+        rewrite (texts_step _ _ _ _ Hv) by (try discriminate; exact Hc). right. eapply Hstep; eauto.
+  Qed.
+
   (* ---------- an aborted group leaves no trace ---------- *)
 
   Definition no_marker (ch : change) : bool := match ch with UBegin | UEnd => false | _ => true end.
+
+  (* ---------- one Undo = one change, or one whole group ---------- *)
+
+  Theorem undo_one_change ch rest (b b' : lb) :
+    no_marker ch = true -> change_undo ch b = Ok b' ->
+    cs_undo_loop (ch :: rest) b 1 0 0%Z false = Ok (rest, b', true).
+  Proof. intros Hm Hc. destruct ch; try discriminate; cbn [cs_undo_loop]; rewrite Hc; reflexivity. Qed.
+
+  Lemma undo_group_body body : forall rest (b : lb) undone,
+    forallb no_marker body = true -> valid (body ++ UBegin :: rest) (buf b) ->
+    exists b' d, cs_undo_loop (body ++ UBegin :: rest) b 1 0 1%Z undone = Ok (rest, b', d) /\ valid rest (buf b').
+  Proof.
+    induction body as [|ch body IH]; intros rest b undone Hm Hv.
+    - cbn [app cs_undo_loop]. cbn. eexists _, _. split; [reflexivity|exact Hv].
+    - cbn in Hm. apply andb_true_iff in Hm. destruct Hm as [Hc Hm]. cbn [app] in *.
+      destruct (change_undo_ok ch (body ++ UBegin :: rest) b Hv) as [b1 [Hcu [Hv1 _]]];
+        try (destruct ch; discriminate).
+      destruct ch; try discriminate; cbn [cs_undo_loop]; rewrite Hcu; cbn; apply IH; assumption.
+  Qed.
+
+  Theorem undo_one_group body rest (b : lb) :
+    forallb no_marker body = true -> valid (UEnd :: body ++ UBegin :: rest) (buf b) ->
+    exists b' d, cs_undo_loop (UEnd :: body ++ UBegin :: rest) b 1 0 0%Z false = Ok (rest, b', d)
+                 /\ valid rest (buf b').
+  Proof. intros Hm Hv. cbn [cs_undo_loop]. cbn. apply undo_group_body; assumption. Qed.
 
   Lemma cs_notify_above c0 new e level :
     forallb no_marker new = true ->
